@@ -138,6 +138,7 @@ func ConnectWithConfig(c *ConnConfig) (*Conn, error) {
 	}
 
 	go func() {
+		reconnected := false
 		for {
 			ctx, cancel := context.WithCancel(context.Background())
 			defer cancel()
@@ -150,7 +151,7 @@ func ConnectWithConfig(c *ConnConfig) (*Conn, error) {
 				conn.eventDispatcher.dispatchLoop(ctx)
 			}()
 
-			if err := conn.run(ctx); err != nil {
+			if err := conn.run(ctx, reconnected); err != nil {
 				if err := conn.reconnect(ctx); err != nil {
 					if errors.Is(err, errors.ErrConnectionClosed) {
 						conn.logger.Warnf(ctx, "failed to reconnect: %+v", err)
@@ -159,9 +160,7 @@ func ConnectWithConfig(c *ConnConfig) (*Conn, error) {
 					conn.logger.Errorf(ctx, "failed to reconnect: %+v", err)
 					return
 				}
-				conn.Config.ReconnectedEventHandler.OnReconnected(&ReconnectedEvent{
-					Config: conn.Config,
-				})
+				reconnected = true // the handler is called by run, once the new connection is being served
 				continue
 			}
 			return
@@ -744,7 +743,7 @@ func (c *Conn) Close(ctx context.Context) error {
 	})
 }
 
-func (c *Conn) run(ctx context.Context) error {
+func (c *Conn) run(ctx context.Context, reconnected bool) error {
 	defer c.Config.DisconnectedEventHandler.OnDisconnected(&DisconnectedEvent{
 		Config: c.Config,
 	})
@@ -773,6 +772,13 @@ func (c *Conn) run(ctx context.Context) error {
 		}
 		return nil
 	})
+	if reconnected {
+		// the loops above read what the broker forwards while the application's handler runs: a slow handler
+		// must not stall the wire reader (and with it the pongs) of the new connection
+		c.Config.ReconnectedEventHandler.OnReconnected(&ReconnectedEvent{
+			Config: c.Config,
+		})
+	}
 	if err := eg.Wait(); err != nil {
 		return fmt.Errorf("unexpected disconnect: %w", err)
 	}
